@@ -417,9 +417,13 @@ func GetSignalCells(
 	bitsInStream := uint(len(bitStream) * 8)
 	bitsLeft := bitsInStream - pos
 
-	// Find the number of signal cells, ignoring any padding.
+	// The cell mask in the header gives the number of signal cells.  The
+	// bit stream must be long enough to hold them.  (The cells may be
+	// followed by padding and the CRC, and a cell may be all zeros, so the
+	// number can't be found by examining the trailing bits.)
 
-	numSignalCells := utils.GetNumberOfSignalCells(bitStream, pos, bitsPerCell)
+	numSignalCells := header.NumSignalCells
+	cellsThatFit := int(bitsLeft / bitsPerCell)
 
 	if header.MultipleMessage {
 		// The message doesn't contain all the signal cells but there should be
@@ -429,12 +433,15 @@ func GetSignalCells(
 				bitsPerCell, bitsLeft)
 			return nil, errors.New(message)
 		}
+		if cellsThatFit < numSignalCells {
+			numSignalCells = cellsThatFit
+		}
 	} else {
 		// This message should contain all the signal cells.  Check that
 		// there are the expected number.
-		if numSignalCells < header.NumSignalCells {
+		if cellsThatFit < header.NumSignalCells {
 			message := fmt.Sprintf("overrun - want %d MSM7 signals, got %d",
-				header.NumSignalCells, numSignalCells)
+				header.NumSignalCells, cellsThatFit)
 			return nil, errors.New(message)
 		}
 	}
